@@ -53,6 +53,18 @@ def main():
                 break
         if findings:
             break
+    if not findings:
+        # noisy runs: resume from autosaves taken at the points a crash can leave behind (separate process:
+        # it monkeypatches the implementation classes)
+        import subprocess
+        p = subprocess.run([sys.executable, os.path.join(os.path.dirname(os.path.abspath(__file__)), "c26_noisy.py")],
+                           capture_output=True, text=True, env=dict(os.environ, OMP_NUM_THREADS="1"), timeout=1500)
+        out = "\n".join(l for l in p.stdout.splitlines() if "conda" not in l.lower())
+        if p.returncode == 1 and "REPRODUCED:" in out:
+            findings.append(out.strip().splitlines()[-1].replace("REPRODUCED: ", "") + " | " +
+                            " ; ".join(l.strip() for l in out.splitlines() if l.startswith("VIOLATION"))[:600])
+        else:
+            print("  noisy part: " + (out.strip().splitlines() or ["(no output)"])[-1])
     if findings:
         print("REPRODUCED: " + findings[0])
         for t in findings[1:]:
